@@ -9,6 +9,8 @@ import (
 
 	vr "github.com/zmap/zcrypto/internal/verifrt"
 	"github.com/zmap/zcrypto/x509"
+	"github.com/zmap/zcrypto/x509/revocation/google"
+	"github.com/zmap/zcrypto/x509/revocation/mozilla"
 )
 
 type mKey struct{ id byte }
@@ -326,15 +328,27 @@ func VerifH_C11_walk_chains() {
 // C12: Verifier results are a consistent view of the chains the walk returns.
 // (two chains in the thorough tier ran past 45 minutes; both tiers take at most one)
 // verif: covers=done
-func VerifH_C12_verifier_result() {
+func VerifH_C12_verifier_result() { c12VerifierResult(false) }
+
+// The revocation-set part of the result, with the other dimensions narrowed (exactly
+// one chain of length one or two, no name, not a root).
+// verif: covers=done
+func VerifH_C12_revocation_sets() { c12VerifierResult(true) }
+
+func c12VerifierResult(revocation bool) {
 	gSymbolicTimes = true
 	leaf := gCert(0)
 	pool := []*x509.Certificate{gCert(1), gCert(2), gCert(3)}
-	nch := vr.Int("nchains", 0, 1)
+	nch := 1
+	maxLen := 2
+	if !revocation {
+		nch = vr.Int("nchains", 0, 1)
+		maxLen = 3
+	}
 	var chains []x509.CertificateChain
 	for i := 0; i < nch; i++ {
 		ch := x509.CertificateChain{leaf}
-		l := vr.Int("chainlen", 1, 3)
+		l := vr.Int("chainlen", 1, maxLen)
 		for j := 1; j < l; j++ {
 			ch = append(ch, pool[vr.Pick(vr.Int("member", 0, 2))])
 		}
@@ -352,15 +366,43 @@ func VerifH_C12_verifier_result() {
 		return errors.New("model: name mismatch")
 	})
 	g := NewGraph()
-	isRoot := vr.Bool("leafIsRoot")
+	isRoot := !revocation && vr.Bool("leafIsRoot")
 	if isRoot {
 		gSigStub()
 		g.AddRoot(leaf)
 	}
 	nowS := int(vr.U8("now"))
-	name := string(vr.Bytes("name", vr.Int("namelen", 0, 1)))
+	name := ""
+	if !revocation {
+		name = string(vr.Bytes("name", vr.Int("namelen", 0, 1)))
+	}
 	v := NewVerifier(g, nil)
-	res := v.Verify(leaf, VerificationOptions{VerifyTime: time.Unix(int64(nowS), 0), Name: name})
+	// revocation sets: either, both or none supplied; their membership verdicts are
+	// arbitrary (C15 decides the sets themselves)
+	opts := VerificationOptions{VerifyTime: time.Unix(int64(nowS), 0), Name: name}
+	oneLists, crlLists := false, false
+	if revocation {
+		oneLists, crlLists = vr.Bool("oneCRLListsIt"), vr.Bool("crlSetListsIt")
+		if vr.Bool("hasOneCRL") {
+			opts.OneCRL = &mozilla.OneCRL{}
+		}
+		if vr.Bool("hasCRLSet") {
+			opts.CRLSet = &google.CRLSet{}
+		}
+	}
+	vr.Stub("(*github.com/zmap/zcrypto/x509/revocation/mozilla.OneCRL).Check", func(o *mozilla.OneCRL, c *x509.Certificate) *mozilla.Entry {
+		if oneLists {
+			return &mozilla.Entry{}
+		}
+		return nil
+	})
+	vr.Stub("(*github.com/zmap/zcrypto/x509/revocation/google.CRLSet).Check", func(s *google.CRLSet, c *x509.Certificate, issuerSPKIHash string) *google.Entry {
+		if crlLists {
+			return &google.Entry{}
+		}
+		return nil
+	})
+	res := v.Verify(leaf, opts)
 
 	window := func(ch x509.CertificateChain) (lo, hi int) {
 		lo, hi = gNB[ch[0].Raw[0]], gNA[ch[0].Raw[0]]
@@ -447,7 +489,9 @@ func VerifH_C12_verifier_result() {
 		wantType = x509.CertificateTypeLeaf
 	}
 	vr.Assert(res.CertificateType == wantType, "certificate type follows the documented rules")
-	vr.Assert(res.HasTrustedChain() == (len(res.CurrentChains) > 0) && !res.InRevocationSet, "helpers")
+	wantRevoked := (opts.OneCRL != nil && oneLists) || (opts.CRLSet != nil && crlLists && len(res.Parents) > 0)
+	vr.Assert(res.InRevocationSet == wantRevoked, "in a revocation set exactly when a supplied OneCRL, or a supplied CRLSet under one of the parents, lists the certificate")
+	vr.Assert(res.HasTrustedChain() == (len(res.CurrentChains) > 0), "HasTrustedChain means a current chain exists")
 	vr.Cover("done")
 }
 
